@@ -270,6 +270,7 @@ func (sc *shapeChecker) step(s *shState, in ssa.Instruction) {
 		// forget what is known about the fields of its pointer arguments
 		g := x.Call.StaticCallee()
 		if g != nil && sc.c.InPkg(g) && sc.writesLinks(g) {
+			s.countUnknown = true // the callee adjusts the count for what it links or unlinks; it is judged on its own
 			for _, a := range x.Call.Args {
 				id := sc.value(s, a)
 				for k := range s.field {
@@ -300,6 +301,32 @@ func (sc *shapeChecker) writesLinks(fn *ssa.Function) bool {
 	}
 	writesLinksMemo[fn] = r
 	return r
+}
+
+// pointedTo: some known link (of a base that is not nil on this path) has the node as its value.
+func (sc *shapeChecker) pointedTo(s *shState, id string) bool {
+	for k, v := range s.field {
+		if v != id {
+			continue
+		}
+		if n, _ := sc.known(s, k.base); n {
+			continue
+		}
+		return true
+	}
+	return false
+}
+
+// isListNode: the id denotes a list node (parameter or loaded value of type *listItem, or a fresh node), not a list header.
+func (sc *shapeChecker) nodeParam(id string) bool {
+	for _, p := range sc.fn.Params {
+		if p.Name() == id {
+			if pt, ok := p.Type().(*types.Pointer); ok && sc.c.isPkgType(pt.Elem(), "listItem") {
+				return true
+			}
+		}
+	}
+	return false
 }
 
 // check verifies the invariant on the written part of the heap.
@@ -333,6 +360,9 @@ func (sc *shapeChecker) check(s *shState, where string) {
 		}
 		if baseNil, _ := sc.known(s, k.base); baseNil {
 			continue // a fact about the neighbour of a node that turned out to be nil on this path
+		}
+		if (k.field == "next" || k.field == "prev") && !s.stored[k] && sc.nodeParam(k.base) && !sc.pointedTo(s, k.base) {
+			continue // a node *parameter* nothing points to any more was taken out of the list by this function: its own stale links are not part of the list (a neighbour that becomes unreachable is a lost node and is reported)
 		}
 		var needField, needVal string
 		switch k.field {
@@ -413,10 +443,17 @@ func (sc *shapeChecker) checkCount(s *shState, where string) {
 		}
 	}
 	// only fresh list nodes count (a fresh list header is not a node)
+	// a node parameter is detached when its links were both set to nil, or when nothing points to it any more although
+	// the function changed links or ends of the list
 	rem := 0
 	for _, p := range sc.fn.Params {
 		id := p.Name()
+		if !sc.nodeParam(id) {
+			continue
+		}
 		if s.stored[shKey{id, "next"}] && s.stored[shKey{id, "prev"}] && s.field[shKey{id, "next"}] == "nil" && s.field[shKey{id, "prev"}] == "nil" {
+			rem++
+		} else if len(s.stored) > 0 && !sc.pointedTo(s, id) && !sc.isPivot(s, id) {
 			rem++
 		}
 	}
@@ -426,6 +463,22 @@ func (sc *shapeChecker) checkCount(s *shState, where string) {
 			sc.problems["count"] = fmt.Sprintf("on a path to %s: %d node(s) linked in and %d detached, but count changes by %+d (LLEN and every index computation depend on it)", where, len(ins), rem, s.delta)
 		}
 	}
+}
+
+// isPivot: the node parameter got a fresh neighbour (an insertion next to it): it stays in the list even if the
+// function never learnt who points to it.
+func (sc *shapeChecker) isPivot(s *shState, id string) bool {
+	for _, f := range []string{"next", "prev"} {
+		if v, ok := s.field[shKey{id, f}]; ok && s.fresh[v] {
+			return true
+		}
+	}
+	for k, v := range s.field {
+		if v == id && s.fresh[k.base] {
+			return true
+		}
+	}
+	return false
 }
 
 func (sc *shapeChecker) run() {
